@@ -183,7 +183,7 @@ def op_lines(ops, emit, fs):
             # $oN = clone $oS; then what every declared member of the clone holds ("A" first when it is not null)
             _, var, src = o
             out.append('try { $o%d = clone $o%d; %s } catch (Throwable $e) { %s }' % (var, src, emit('"N"'), emit('"X"')))
-            for pn, _t in ALLCLS[cls_of[var]][2]:
+            for pn in clone_members(cls_of[var]):
                 rd = "$o%d->get_%s()" % (var, pn) if (cls_of[var], pn) in VIS else "$o%d->%s" % (var, pn)
                 out.append('try { $cv = %s; if (!is_null($cv)) { %s } %s } catch (Throwable $e) { %s }' % (rd, emit('"A"'), emit("tag($cv)"), emit('"T"')))
         elif o[0] == "concat":
@@ -310,7 +310,7 @@ def coq_ops(ops, lines=None):
             inst[o[1]] = (cls_, args_)
             res.append(('ONewRaw "%s"' % cls_) if args_ is None else ('ONew "%s" %s' % (cls_, coq_list(coq_cty(a) for a in args_))))
             k += 1
-            for pn, _t in ALLCLS[cls_][2]:
+            for pn in clone_members(cls_):
                 ln = lines[k] if lines is not None and k < len(lines) else "null"
                 if ln == "A":
                     vl = lines[k + 1] if k + 1 < len(lines) else "null"
@@ -512,7 +512,7 @@ def enumerated_nest(tier, rng):
                 chains.append([("Box", [a]), ("Box", [b])])
     def rnd_inst():
         return ("Box", [rng.choice(ARGS)]) if rng.random() < 0.5 else ("Pair", [rng.choice(ARGS), rng.choice(ARGS_X)])
-    for _ in range(60 if tier == "quick" else 600):
+    for _ in range(60 if tier == "quick" else 200):
         chains.append([rnd_inst() for _ in range(rng.randint(2, 4))])
     chains.append([("Pair", ["int", "string"]), ("Pair", ["array", "A"])])
     chains.append([("Box", ["A"]), ("Box", ["int"])])
@@ -683,6 +683,12 @@ TABLES = [[BOX, PAIR], [PAIR], [BOX, CELL], [PAIR, CELL, BOX], [BOX, PBOX], [PBO
 ALLCLS = {c[0]: c for c in (BOX, PAIR, CELL, PBOX, PPAIR, SLOT, SPAIR, BBOX, BPAIR)}
 
 
+def clone_members(cls):
+    """what a clone takes over from the original, as far as the histories can see it: every declared member and the
+    dynamic property `zz` (the one undeclared name the generators store into)"""
+    return [pn for pn, _t in ALLCLS[cls][2]] + ["zz"]
+
+
 def enumerated_clone():
     """`clone` of live generic instances: Box<a> (holding a value) and Box<b> are cloned; the clones, then the originals,
     are probed: a clone is an instance with the SAME type arguments"""
@@ -792,7 +798,7 @@ def op_at(ops, pos, lines=None):
         if o[0] == "clone":
             cls_of[o[1]] = cls_of.get(o[2])
             k += 1
-            for _ in ALLCLS[cls_of[o[1]]][2]:
+            for _ in clone_members(cls_of[o[1]]):
                 k += 2 if (lines is not None and k < len(lines) and lines[k] == "A") else 1
         else:
             k += len(o[2]) if o[0] == "nest" else 2 if o[0] == "concat" else 1
@@ -855,9 +861,9 @@ def main(ck):
         for c in mcases:
             c["val"] = tuple(c["val"])
     else:
-        cases = enumerated(ck.tier) + enumerated_c(ck.tier, rng) + enumerated_nest(ck.tier, rng) + enumerated_slot() + enumerated_parent() + enumerated_pairperm() + enumerated_clone() + seeded(rng, 900 if ck.tier == "quick" else 30000)
+        cases = enumerated(ck.tier) + enumerated_c(ck.tier, rng) + enumerated_nest(ck.tier, rng) + enumerated_slot() + enumerated_parent() + enumerated_pairperm() + enumerated_clone() + seeded(rng, 900 if ck.tier == "quick" else 2500)
         mcases = member_cases()
-        groups = conc_groups(rng, 30 if ck.tier == "quick" else 1500)
+        groups = conc_groups(rng, 30 if ck.tier == "quick" else 120)
 
     srcs = [script(c["tbl"], c["ops"], c.get("factory", False), c.get("ns", False), c.get("late", False)) for c in cases] + [c["src"] for c in mcases]
     outs, rc, err = run_impl(binary, srcs)
